@@ -33,6 +33,6 @@ def queries(tier):
     return qs
 
 MANIFEST = {
-    "text": "Non-blocking semantics decided on the real protocol code: a zero-timeout send/receive has completed when the entry point returns; it succeeds whenever the readiness state says it can and fails at once (ETIMEDOUT -> EAGAIN, or ESTATE) otherwise, leaving the message with the caller; after every event of every skeleton the send/receive pollable equals the readiness predicate of the protocol (no missed wake-up, no busy loop). Raw sockets: the same for core/msgqueue.c.",
+    "text": "Non-blocking semantics decided on the real protocol code: a zero-timeout send/receive has completed when the entry point returns; it succeeds whenever the readiness state says it can and fails at once (ETIMEDOUT -> EAGAIN, or ESTATE) otherwise, leaving the message with the caller; after every event of every skeleton the send/receive pollable equals the readiness predicate of the protocol (no missed wake-up, no busy loop). Raw sockets: the same for core/msgqueue.c. The NNG_FLAG_NONBLOCK front end of the real src/nng.c (nng_sendmsg/recvmsg/ctx_sendmsg/ctx_recvmsg/send/recv) for ANY flags value and ANY handle: never waits, NNG_EAGAIN iff the socket could not serve the call, success never turned into NNG_EAGAIN, message ownership on failure. REP: the send pollable mirrors 'a reply would be taken at once'.",
     "note": "p_raised is the observable (not the fd byte); events are atomic.",
 }
